@@ -279,6 +279,112 @@ def inline_single_return_calls(fn, model=None, cls=None):
     return fn
 
 
+def inline_nested_defs(fn):
+    """statement-level inlining of functions nested in fn (on a clone): a helper whose body is straight-line code (no loops, no
+    return but the last statement) and that is only ever called as a whole statement value (`x = h(..)`, `a, b = h(..)`,
+    `acc += h(..)`, `h(..)`, `return h(..)`) with plain positional / keyword arguments is replaced, at each call, by its body
+    with its locals renamed; a returned tuple unpacked into a tuple of names becomes pairwise assignments.
+    Helpers that do not fit stay as they are."""
+    new = clone_ast(fn)
+    changed = True
+    rounds = 0
+    while changed and rounds < 4:
+        changed = False
+        rounds += 1
+        defs = [x for x in ast.walk(new) if isinstance(x, ast.FunctionDef) and x is not new]
+        for h in defs:
+            a = h.args
+            if h.decorator_list or a.vararg or a.kwarg or a.kwonlyargs or a.posonlyargs:
+                continue
+            body = [s for s in h.body if not (isinstance(s, ast.Expr) and isinstance(s.value, ast.Constant))]
+            if not body or not isinstance(body[-1], ast.Return):
+                continue
+            inner = [y for s in body for y in ast.walk(s)]
+            if any(isinstance(y, (ast.For, ast.While, ast.FunctionDef, ast.Lambda, ast.Yield, ast.YieldFrom, ast.Global, ast.Nonlocal, ast.Try, ast.With)) for y in inner):
+                continue
+            if sum(1 for y in inner if isinstance(y, ast.Return)) != 1:
+                continue
+            if any(isinstance(y, ast.Name) and y.id == h.name for y in inner):
+                continue
+            params = [x.arg for x in a.args]
+            defaults = dict(zip(params[len(params) - len(a.defaults):], a.defaults))
+            # every use of the name must be such a call
+            uses = [y for y in ast.walk(new) if isinstance(y, ast.Name) and y.id == h.name and isinstance(y.ctx, ast.Load)]
+            sites = []
+            okay = True
+            for blk_owner in ast.walk(new):
+                for fld in ("body", "orelse", "finalbody"):
+                    blk = getattr(blk_owner, fld, None)
+                    if not isinstance(blk, list):
+                        continue
+                    for st in blk:
+                        call = None
+                        if isinstance(st, (ast.Assign, ast.AugAssign, ast.Return, ast.Expr)) and isinstance(st.value, ast.Call) and isinstance(st.value.func, ast.Name) and st.value.func.id == h.name:
+                            call = st.value
+                        if call is not None:
+                            sites.append((blk, st, call))
+            if len(sites) != len(uses) or not sites:
+                continue
+            local = set(params) | {y.id for y in inner if isinstance(y, ast.Name) and isinstance(y.ctx, ast.Store)}
+            plan = []
+            for blk, st, call in sites:
+                if any(isinstance(x, ast.Starred) for x in call.args) or any(k.arg is None for k in call.keywords) or len(call.args) > len(params):
+                    okay = False
+                    break
+                bind = dict(zip(params, call.args))
+                for k in call.keywords:
+                    if k.arg not in params or k.arg in bind:
+                        okay = False
+                    bind[k.arg] = k.value
+                for q in params:
+                    if q not in bind:
+                        if q in defaults:
+                            bind[q] = defaults[q]
+                        else:
+                            okay = False
+                if not okay:
+                    break
+                plan.append((blk, st, call, bind))
+            if not okay:
+                continue
+            for blk, st, call, bind in plan:
+                pre = "_%s_" % h.name.strip("_")
+
+                class Ren(ast.NodeTransformer):
+                    def visit_Name(self, n):
+                        if n.id in local:
+                            return ast.copy_location(ast.Name(id=pre + n.id, ctx=n.ctx), n)
+                        return n
+                seq = []
+                for q in params:
+                    seq.append(ast.copy_location(ast.Assign(targets=[ast.Name(id=pre + q, ctx=ast.Store())], value=clone_ast(bind[q])), st))
+                for s_ in body[:-1]:
+                    seq.append(ast.copy_location(Ren().visit(clone_ast(s_)), st))
+                ret = Ren().visit(clone_ast(body[-1].value)) if body[-1].value is not None else ast.Constant(value=None)
+                if isinstance(st, ast.Assign) and len(st.targets) == 1 and isinstance(st.targets[0], ast.Tuple) and isinstance(ret, ast.Tuple) \
+                        and len(ret.elts) == len(st.targets[0].elts) and all(isinstance(t, ast.Name) for t in st.targets[0].elts):
+                    for t, v in zip(st.targets[0].elts, ret.elts):
+                        seq.append(ast.copy_location(ast.Assign(targets=[t], value=v), st))
+                else:
+                    st.value = ret
+                    seq.append(st)
+                k = [i for i, x in enumerate(blk) if x is st][0]
+                blk[k:k + 1] = seq
+            # drop the definition
+            for owner in ast.walk(new):
+                for fld in ("body", "orelse", "finalbody"):
+                    blk = getattr(owner, fld, None)
+                    if isinstance(blk, list) and any(x is h for x in blk):
+                        blk[:] = [x for x in blk if x is not h] or [ast.Pass()]
+            changed = True
+            break
+    ast.fix_missing_locations(new)
+    for node in ast.walk(new):
+        for ch in ast.iter_child_nodes(node):
+            ch._parent = node
+    return new
+
+
 def inline_single_use_temps(fn, only_bool=False):
     """t = <expr> ... <one later use of t in the same block>  ->  the use reads <expr> (in place, on a cloned function).
     t must be bound once and read once; nothing the expression mentions may be re-bound between the two statements."""
